@@ -30,7 +30,7 @@ TimeCav(t)   == [k |-> "time", t |-> t]
 UnknownCav   == [k |-> "unknown"]
 NoToken      == [none |-> TRUE]
 
-AlterKinds == {"flip_sig", "flip_caveat", "flip_id", "truncate",
+AlterKinds == {"flip_sig", "flip_caveat", "flip_id", "truncate", "text_pad",   \* text_pad: '=' appended to the text
                "add_unknown", "add_gen", "add_time_past", "add_time_future",
                "add_user_other", "add_user_same",
                "mint_no_time", "mint_no_gen", "mint_no_user",
@@ -82,6 +82,7 @@ Alter(kind) ==
             [] kind = "flip_caveat"     -> [tok EXCEPT !.cavs = [@ EXCEPT ![Len(@)] = UnknownCav]]
             [] kind = "flip_id"         -> [tok EXCEPT !.id = "corrupt"]
             [] kind = "truncate"        -> [tok EXCEPT !.parse = FALSE]
+            [] kind = "text_pad"        -> [tok EXCEPT !.parse = FALSE]   \* not the unpadded alphabet any more
             [] kind = "add_unknown"     -> add(UnknownCav)
             [] kind = "add_gen"         -> add(Gen)
             [] kind = "add_time_past"   -> add(TimeCav(0))
